@@ -4,7 +4,7 @@ from .. import core, mt_check
 
 def run(tier, seed, verdict):
     quick = tier == "quick"
-    ctxs = 4 if quick else 150
+    ctxs = 4 if quick else 40
     res = mt_check.MtResult()
     for variant in ("asan20d", "tsan20d"):
         n = ctxs if variant.startswith("asan") else max(2, ctxs // 3)
